@@ -197,6 +197,39 @@ def explore(ck, n, atm, np, xrun=True):
             if xrun:
                 calls.append(("relative_humidity2vmr", (rh, p, T), float(atm.relative_humidity2vmr(rh, p, T))))
                 calls.append(("vmr2relative_humidity", (x, p, T), float(atm.vmr2relative_humidity(x, p, T))))
+    # ---------------- array calls: no argument / callback result is modified, repeatable, layout-independent;
+    # "any saturation function" includes one that hands out a persistent table (memoised e_s)
+    for it in range(max(n // 15, 6)):
+        m = rng.choice([1, 3, 8])
+        Ta = np.array([rng.uniform(180, 330) for _ in range(m)])
+        pa = np.array([numlib.loguniform(rng, 1e2, 1.1e5) for _ in range(m)])
+        rha = np.array([rng.uniform(0.01, 1.2) for _ in range(m)])
+        if it % 3 == 2:
+            Ta, pa, rha = Ta.reshape(1, m), pa.reshape(1, m), np.stack([rha, 0.5 * rha])
+        table = np.array(611.2 * np.exp(0.06 * (Ta - 273.15)))
+        keep = table.copy()
+        sat_tab = lambda T, table=table: table                     # returns the SAME array object every time
+        sat_id = lambda T: T
+        for e, name in ((None, "default"), (sat_tab, "table-backed"), (sat_id, "identity"), (atm.e_eq_mixed_mk, "mixed"), (atm.e_eq_ice_mk, "ice")):
+            case = {"fn": "rh-array", "e_eq": name, "T": Ta.ravel().tolist()[:4], "p": pa.ravel().tolist()[:4], "RH": rha.ravel().tolist()[:4]}
+            ck.case(key=("rh-arr", name, float(Ta.ravel()[0]), float(rha.ravel()[0])), kind=f"rh-array/{name}")
+            kw = {} if e is None else {"e_eq": e}
+            x1 = numlib.pure_call(ck, np, atm.relative_humidity2vmr, [rha, pa, Ta], f"relative_humidity2vmr(e_eq={name})", case, rtol=1e-15, kwargs=kw)
+            if x1 is None:
+                continue
+            back = numlib.pure_call(ck, np, atm.vmr2relative_humidity, [np.asarray(x1), pa, Ta], f"vmr2relative_humidity(e_eq={name})", case, rtol=1e-15, kwargs=kw)
+            if back is None:
+                continue
+            if not numlib.same(np, np.broadcast_to(rha, np.shape(back)), back, rtol=1e-12):
+                ck.violation("other", f"RH -> vmr -> RH with the {name} saturation function returns {np.asarray(back).ravel()[:4].tolist()} for {rha.ravel()[:4].tolist()}", case)
+            if not numlib.same(np, table, keep):
+                ck.violation("argument-modified", f"relative_humidity2vmr / vmr2relative_humidity modified the array returned by the {name} saturation function", case)
+                table[...] = keep
+        for fn in ("vmr2mixing_ratio", "mixing_ratio2vmr", "vmr2specific_humidity", "specific_humidity2vmr", "mixing_ratio2specific_humidity",
+                   "specific_humidity2mixing_ratio", "e_eq_ice_mk", "e_eq_water_mk", "e_eq_mixed_mk"):
+            arg = Ta if fn.startswith("e_eq") else np.array([numlib.loguniform(rng, 1e-9, 0.5) for _ in range(Ta.size)]).reshape(Ta.shape)
+            numlib.pure_call(ck, np, getattr(atm, fn), [arg], fn, {"fn": fn + "/array", "args": arg.ravel().tolist()[:4]}, rtol=1e-15)
+        numlib.pure_call(ck, np, atm.moist_lapse_rate, [pa * 10 + 2e5, Ta], "moist_lapse_rate", {"fn": "moist_lapse_rate/array"}, rtol=1e-15)
     # ---------------- moist lapse rate
     from typhon import constants as tc
     gamma_d = 9.80665 / 1003.5
